@@ -166,3 +166,20 @@ Theorem order_accept_perm l l' :
 Proof. intros Hp Hnd. rewrite (init_order_perm l l' Hp Hnd). reflexivity. Qed.
 
 End Build.
+
+(* the types-first sort: every statement in front of a blob/enum is itself a blob/enum *)
+Lemma types_first_spec ss l1 s l2 :
+  types_first ss = l1 ++ s :: l2 -> is_type_stmt s = true -> forall x, In x l1 -> is_type_stmt x = true.
+Proof.
+  unfold types_first. intros H Hs x Hx.
+  set (ty := filter is_type_stmt ss) in *. set (va := filter (fun s => negb (is_type_stmt s)) ss) in *.
+  assert (Hty : forall y, In y ty -> is_type_stmt y = true) by (intros y Hy; apply filter_In in Hy; tauto).
+  assert (Hva : forall y, In y va -> is_type_stmt y = false).
+  { intros y Hy. apply filter_In in Hy as [_ Hy]. apply negb_true_iff in Hy. exact Hy. }
+  clearbody ty va. revert l1 H Hx. induction ty as [|t ty IH]; intros l1 H Hx.
+  - cbn in H. assert (In s va) by (rewrite H; apply in_or_app; right; left; reflexivity).
+    rewrite (Hva s) in Hs by assumption. discriminate.
+  - destruct l1 as [|y l1]; [destruct Hx|]. cbn in H. injection H as E1 E2. destruct Hx as [<-|Hx].
+    + subst. apply Hty. left. reflexivity.
+    + eapply IH; eauto. intros z Hz. apply Hty. right. assumption.
+Qed.
